@@ -970,6 +970,50 @@ class Categorical(Dimension):
         return 1 if a != b else 0
 
 
+def drop_inactive_values(values, config_space):
+    """Remove the values of the inactive hyperparameters from a dict of values.
+
+    The inactive hyperparameters of a configuration are represented with a value (their lower
+    bound) in DeepHyper. This value has no meaning, in particular it must not be tested by the
+    forbidden clauses of the ``config_space`` (which are checked on all given values when
+    a ``ConfigSpace.Configuration`` is created).
+
+    Args:
+        values (dict): the value of each hyperparameter.
+        config_space (ConfigurationSpace): the space defining conditions between hyperparameters.
+
+    Returns:
+        dict: the values of the hyperparameters which are active or not legal (the latter are
+        left to be reported by ConfigSpace).
+    """
+    vector = np.full(len(config_space), np.nan)
+    for name, value in values.items():
+        hp = config_space[name]
+        if hp.legal_value(value):
+            vector[config_space.index_of[name]] = hp.to_vector(value)
+
+    # A condition on an inactive (nan) parent is not satisfied. Loop until a fix point is
+    # reached to be independent of the order in which hyperparameters are visited.
+    changed = True
+    while changed:
+        changed = False
+        for name in values:
+            idx = config_space.index_of[name]
+            if not np.isnan(vector[idx]) and not all(
+                cond.satisfied_by_vector(vector)
+                for cond in config_space.parent_conditions_of[name]
+            ):
+                vector[idx] = np.nan
+                changed = True
+
+    return {
+        name: value
+        for name, value in values.items()
+        if not np.isnan(vector[config_space.index_of[name]])
+        or not config_space[name].legal_value(value)
+    }
+
+
 def _sample_dimension(dim, i, n_samples, random_state, out):
     """Wrapper to sample dimension for joblib parallelization."""
     out[0][:, i] = dim.rvs(n_samples=n_samples, random_state=random_state)
@@ -1433,6 +1477,7 @@ class Space:
         x = x[:]
         if self.config_space is not None:
             x_dict = {k: v for k, v in zip(self.dimension_names, x)}
+            x_dict = drop_inactive_values(x_dict, self.config_space)
             x_dict = dict(
                 deactivate_inactive_hyperparameters(x_dict, self.config_space)
             )
